@@ -39,6 +39,9 @@ MUTANTS["C12"] = [
      "        tasks_done += 1\n        if not (pool.max_tasks and tasks_done > pool.max_tasks):\n            done_queue.put((worker_name, task, results, ret_exc))\n        tasks_done -= 1\n\n        tasks_done += 1"),
     ("exc-dropped-single-process", "annet/parallel.py", "                    task_result.exc = safe_exc\n                if self.capture_output:", "                    task_result.exc = None\n                if self.capture_output:"),
     ("exit-test-uses-stale-poll-flag (revert of ef69d96)", "annet/parallel.py", "                if pool_was_empty and queue_empty:", "                if not pool and queue_empty:"),
+    # (round-5 seed C12-10, re-expressed on the repaired tree: the timeout baseline is no longer refreshed when a result arrives)
+    ("task-timeout-counts-from-pool-start", "annet/parallel.py", "                    worker_name, _, in_thread_results, exc = done_queue.get(True, 0.1 if pool_was_empty else 1)\n                    last_task_ts = time.monotonic()\n",
+     "                    worker_name, _, in_thread_results, exc = done_queue.get(True, 0.1 if pool_was_empty else 1)\n"),
 ]
 
 MUTANTS["C01"] = [
